@@ -1,0 +1,57 @@
+//go:build verif
+
+// Assumed contracts of library functions and interfaces used by the code under
+// contract. Nothing here is verified: every block is part of the trusted base
+// and is listed as such in /verif/evidence/*.json. Comment-only file.
+
+package cache
+
+//@ extern fmt.Errorf(format, args)
+//@   pure
+//@   ensures result != nil
+
+//@ extern errors.New(text)
+//@   pure
+//@   ensures result != nil
+
+//@ extern fmt.Sprintf(format, args)
+//@   pure
+
+// container/list, specified over the ghost recency sequence l.seq (entries,
+// front = most recent) and the ghost owner of each element.
+
+//@ extern (*container/list.List).PushFront(l, v)
+//@   requires l != nil
+//@   requires fresh: !member(l.seq, payload(v))
+//@   modifies l.seq, #list.Element.Value, #list.Element.owner
+//@   ensures result != nil && old(#list.Element.owner)[ref(result)] == 0
+//@   ensures result.Value == v && result.owner == ref(l)
+//@   ensures l.seq == pushFront(old(l.seq), payload(v))
+//@   ensures forall e Int :: e != ref(result) ==> (#list.Element.owner[e] == old(#list.Element.owner)[e] && #list.Element.Value.val[e] == old(#list.Element.Value.val)[e] && #list.Element.Value.tag[e] == old(#list.Element.Value.tag)[e])
+
+//@ extern (*container/list.List).Remove(l, e)
+//@   requires l != nil && e != nil
+//@   modifies l.seq, e.owner
+//@   ensures old(e.owner) == ref(l) ==> (l.seq == seqremove(old(l.seq), payload(e.Value)) && e.owner == 0)
+//@   ensures old(e.owner) != ref(l) ==> (l.seq == old(l.seq) && e.owner == old(e.owner))
+
+//@ extern (*container/list.List).MoveToFront(l, e)
+//@   requires l != nil && e != nil
+//@   modifies l.seq
+//@   ensures e.owner == ref(l) ==> l.seq == mtf(old(l.seq), payload(e.Value))
+//@   ensures e.owner != ref(l) ==> l.seq == old(l.seq)
+
+//@ extern (*container/list.List).Back(l)
+//@   requires l != nil
+//@   ensures seqlen(l.seq) == 0 ==> result == nil
+//@   ensures seqlen(l.seq) > 0 ==> (result != nil && result.owner == ref(l) && payload(result.Value) == seqback(l.seq))
+
+// sync/atomic.Int64 is only used for SizedLRU.queuedEvictionsSize, which is
+// changed concurrently without the lock: a Load observes an arbitrary
+// non-negative value, recorded in the ghost qobs.
+//@ extern (*sync/atomic.Int64).Load(a)
+//@   modifies qobs
+//@   ensures result == qobs && result >= 0 && result <= B62()
+
+//@ extern (*sync/atomic.Int64).Add(a, d)
+//@   pure
